@@ -244,29 +244,46 @@ func (r *SourceRunner) processEvents(ctx context.Context) error {
 	watermarkTicker := time.NewTicker(math.MaxInt64) // never ticks
 	defer func() { watermarkTicker.Stop() }()
 
+	assignSplits := func(splits []*workerpb.SourceSplit) error {
+		if err := r.sourceReader.AssignSplits(splits); err != nil {
+			return err
+		}
+		// Splits are assigned once every member of the assembly has been
+		// deployed. Watermarks must not be sent earlier: an operator that is
+		// still loading its state rejects them and the error stops this runner.
+		watermarkTicker.Stop()
+		watermarkTicker = time.NewTicker(r.watermarkInterval)
+		if len(splits) > 0 {
+			if r.sourceChannel == nil {
+				return fmt.Errorf("sourceChannel is nil")
+			}
+			r.sourceChannel.Start(r.ctx)
+		}
+		return nil
+	}
+
 	for {
 		select {
 		case <-ctx.Done():
 			r.Logger.Info("stopping source runner loop", "cause", context.Cause(ctx))
 			return nil
 		case splits := <-r.splitsWereAssigned:
-			if err := r.sourceReader.AssignSplits(splits); err != nil {
+			if err := assignSplits(splits); err != nil {
 				return err
-			}
-			// Splits are assigned once every member of the assembly has been
-			// deployed. Watermarks must not be sent earlier: an operator that is
-			// still loading its state rejects them and the error stops this runner.
-			watermarkTicker.Stop()
-			watermarkTicker = time.NewTicker(r.watermarkInterval)
-			if len(splits) > 0 {
-				if r.sourceChannel == nil {
-					return fmt.Errorf("sourceChannel is nil")
-				}
-				r.sourceChannel.Start(r.ctx)
 			}
 		case <-watermarkTicker.C:
 			r.outputStream <- &workerpb.Event{Event: &workerpb.Event_Watermark{Watermark: &workerpb.Watermark{}}}
 		case barrier := <-r.checkpointBarrier:
+			// Splits handed over before the checkpoint was requested belong to it.
+			// Without their (restored) cursors the checkpoint would record no position
+			// for them and a recovery from it would read those splits from the start.
+			select {
+			case splits := <-r.splitsWereAssigned:
+				if err := assignSplits(splits); err != nil {
+					return err
+				}
+			default:
+			}
 			if err := r.createCheckpoint(barrier.CheckpointId); err != nil {
 				return fmt.Errorf("creating checkpoint: %w", err)
 			}
